@@ -17,6 +17,8 @@ TRACE_FAMILY = {'TRACE_DATA_NEWTHREAD', 'TRACE_DATA_EXEC', 'TRACE_DATA_THREAD_TE
 FRAGMENT_CAPABLE = {'VFS_LOOKUP', 'TRACE_STRING_GLOBAL', 'TRACE_STRING_THREADNAME', 'TRACE_STRING_THREADNAME_PREV'}
 
 DATA = b''.join(int(v).to_bytes(8, 'little') for v in (1, 2, 3, 4))
+# a page fault that succeeds (END words 2,3 = result 0, fault type 2) and a nested record its decoder reads
+WORDS_BY_NAME = {'MACH_vmfault': (0x1000, 1, 0, 2), 'RealFaultAddressInternal': (0x1000, (44 << 16) | (3 << 8) | 2, 5, 6)}
 QN = ['NONE', 'START', 'END', 'ALL']
 
 
@@ -42,8 +44,11 @@ class Alphabet:
                 self.codes.append((n, code, True, 'trace' if n in TRACE_FAMILY else 'ord', n in FRAGMENT_CAPABLE))
         self.syms = [(t, ci, q) for t in tids for ci in range(len(self.codes)) for q in range(4)]
         self.max_depth = 8
-        # event objects per (position, symbol)
-        self.events = [[Kevent(pos, DATA, (1, 2, 3, 4), t, self.codes[ci][1] | q, self.codes[ci][1], q)
+        # event objects per (position, symbol); a few codes carry words their decoder acts on (a successful page fault, its nested record)
+        def words_of(ci):
+            w = WORDS_BY_NAME.get(self.codes[ci][0], (1, 2, 3, 4))
+            return b''.join(int(v).to_bytes(8, 'little') for v in w), w
+        self.events = [[Kevent(pos, words_of(ci)[0], words_of(ci)[1], t, self.codes[ci][1] | q, self.codes[ci][1], q)
                         for (t, ci, q) in self.syms] for pos in range(self.max_depth)]
         # the same events stamped with DEcreasing timestamps (stream order is the order of arrival, not of the stamps)
         self.events_desc = [[e._replace(timestamp=1000 - e.timestamp) for e in row] for row in self.events]
@@ -248,6 +253,10 @@ ALPHABETS = {
     # names thread 1, word 1 names thread 2): thread-terminate, new-thread, terminate-pid, sampler thread data
     # two ids of the bundled table that carry ONE name (windows are kept per code, not per name)
     'TWIN': (['BSC_getpid', 'I:0x1600400', 'I:0x160041c'], (1, 2)),
+    # composites whose decoders look INTO their window: a successful page fault with its nested record inside a call; a two-path call
+    # with complete one-record lookups (every decoder may read its window, none may change it or feed it back)
+    'VMF': (['BSC_getpid', 'MACH_vmfault', 'RealFaultAddressInternal'], (1,)),
+    'REN': (['BSC_rename', 'VFS_LOOKUP', 'BSC_getpid'], (1,)),
     'SIDE': (['BSC_getpid', 'TRACE_DATA_THREAD_TERMINATE', 'TRACE_DATA_NEWTHREAD', 'TRACE_DATA_THREAD_TERMINATE_PID', 'PERF_THD_Data'], (1, 2)),
 }
 _ALPHA = {}
@@ -283,8 +292,8 @@ class C04(Check):
 
     def plan(self):
         if self.tier == 'quick':
-            return [('A40', 4), ('FRAG', 3), ('T3', 3), ('C7', 4), ('A16+map', 4), ('T3+map', 3), ('SIDE', 3), ('A16+gen', 4), ('C7+gen', 3), ('T3+gen', 3), ('A16+ts', 4), ('FRAG+ts', 3), ('A16+same', 4), ('A16+same+gen', 4), ('FRAG+same', 3), ('TWIN', 4)]
-        return [('A40', 5), ('A16', 6), ('FRAG', 4), ('A48', 4), ('T3', 4), ('C7', 5), ('A40+map', 4), ('T3+map', 4), ('SIDE', 4), ('A40+gen', 4), ('C7+gen', 4), ('T3+gen', 4), ('A40+ts', 4), ('FRAG+ts', 4), ('A40+same', 4), ('A16+same+gen', 5), ('FRAG+same', 4), ('TWIN', 5)]
+            return [('A40', 4), ('FRAG', 3), ('T3', 3), ('C7', 4), ('A16+map', 4), ('T3+map', 3), ('SIDE', 3), ('A16+gen', 4), ('C7+gen', 3), ('T3+gen', 3), ('A16+ts', 4), ('FRAG+ts', 3), ('A16+same', 4), ('A16+same+gen', 4), ('FRAG+same', 3), ('TWIN', 4), ('VMF', 5), ('REN', 5)]
+        return [('A40', 5), ('A16', 6), ('FRAG', 4), ('A48', 4), ('T3', 4), ('C7', 5), ('A40+map', 4), ('T3+map', 4), ('SIDE', 4), ('A40+gen', 4), ('C7+gen', 4), ('T3+gen', 4), ('A40+ts', 4), ('FRAG+ts', 4), ('A40+same', 4), ('A16+same+gen', 5), ('FRAG+same', 4), ('TWIN', 5), ('VMF', 6), ('REN', 6)]
 
     def bounds(self):
         return {'spaces': [{'alphabet': a, 'symbols': len(alphabet(a).syms), 'depth': d,
